@@ -24,7 +24,7 @@ RULE = (
     "is not its own ancestor; tree.count == len(tree) == #reachable; node_ids unique and find_first(node_id) hits; "
     "iteration yields exactly the reachable set; nodes that left (removed, descendants, clear, filter) are not found "
     "by their former node_id. Non-trivial: >= 3 structure-changing ops succeeded and the tree had >= 5 nodes with a "
-    "clone group or equal-comparing siblings at some step; distinct = distinct case. Part deep-removal: clear / remove / "
+    "clone group or equal-comparing siblings at some step; distinct = distinct case. Part single-steps: every single operation (every kind x node x target x position) on all forests <= 5/7 nodes. Part deep-removal: clear / remove / "
     "remove_children / un-nest on a branch of 650-800 levels (the unchanged code handles about 980) that follows a shallow "
     "sibling branch: no RecursionError, tree well-formed, removed nodes detached, survivors as expected."
 )
@@ -34,7 +34,7 @@ ASSUMPTIONS = [
     "Tree._self_check() is not used (private; asserts node_id == id(node))",
 ]
 
-STRUCT = {"add", "append_child", "prepend_child", "prepend_sibling", "append_sibling", "add_node", "copy_to", "add_tree", "add_own_tree", "own_copy_to", "move",
+STRUCT = {"add", "append_child", "prepend_child", "prepend_sibling", "append_sibling", "add_node", "copy_to", "add_tree", "shortcut_tree", "add_own_tree", "own_copy_to", "move",
           "remove", "remove_children", "clear", "del", "filter"}
 
 
@@ -80,7 +80,7 @@ def run(case, rec):
 def hyp_cases(draw, tier):
     n = 40 if tier == "quick" else 80
     typed = draw(st.sampled_from([False, False, True]))
-    flavour = draw(st.sampled_from(["str", "str", "str", "int", "tuple", "dc", "dictwrap", "obj_cb", "obj_sub", "dict_explicit"]))
+    flavour = draw(st.sampled_from(["str", "str", "str", "int", "tuple", "dc", "dictwrap", "obj_cb", "obj_sub", "dict_explicit", "obj_fwd"]))
     case = draw(gen_ops.histories(typed=typed, max_ops=n, fresh=flavour != "str"))
     case["flavour"] = flavour
     return case
@@ -167,8 +167,17 @@ def deep_cases(tier):
             yield {"depth": depth, "op": op}
 
 
+def single_step_cases(tier):
+    """every single operation of C04's enumeration (every op kind x every node / target / position on all small
+    forests, plain and typed): here only the structural invariants are evaluated"""
+    from checks.c04_effects import enum_cases as single_steps
+
+    yield from single_steps(tier)
+
+
 PARTS = [
     Part("deep-removal", run_deep, enum=deep_cases),
+    Part("single-steps", run, enum=single_step_cases),
     Part("histories", run, strategy=hyp_cases, n={"quick": 1500, "thorough": 200000}),
     Part("two-step-clones", run, enum=enum_cases),
 ]
